@@ -148,7 +148,7 @@ fn syntax_devs_inner(literals: bool, ints: bool, attrs: bool, docs: bool) -> Vec
     }
     if attrs {
         // attributes that are not strum's and carry no documentation text: every derive has to step over them
-        d.push(dev("syntax: #[doc(hidden)] / #[doc(alias = ..)] / #[allow(..)] on the variants", &["synforeign"], |s| {
+        d.push(dev("syntax: #[doc(hidden)] / #[doc(alias = ..)] / #[allow(..)] / #[non_exhaustive] on the variants", &["synforeign"], |s| {
             if s.variants.is_empty() {
                 return false;
             }
@@ -156,6 +156,8 @@ fn syntax_devs_inner(literals: bool, ints: bool, attrs: bool, docs: bool) -> Vec
             s.variants[0].docs.insert(0, ("hidden".into(), crate::spec::DocForm::Marker));
             s.variants[n - 1].docs.push(("alias = \"zz\"".into(), crate::spec::DocForm::Marker));
             s.variants[n / 2].extra_attrs.push("#[allow(dead_code)]".into());
+            // an attribute that is only legal on a variant (not on a fn / impl item): it must not be copied onto generated items
+            s.variants[n - 1].extra_attrs.push("#[non_exhaustive]".into());
             true
         }));
     }
